@@ -303,6 +303,10 @@ func (st *State) specBuiltin(env *Env, e *Expr) (SVal, types.Type, bool) {
 		t := st.resolveType(env.pkg, "uuid.UUID")
 		ln := Ite(nl, IntLit(0), st.blobLen(b))
 		return &SliceV{Base: Ite(nl, IntLit(0), b), Off: IntLit(0), Len: ln, Cap: ln, Elem: t}, types.NewSlice(t), true
+	case "astof":
+		a, _ := st.elab(env, e.Args[0])
+		t := st.resolveType("go.6river.tech/mmmbbb/filter", "*Condition")
+		return App(SInt, st.declareFun("spec.ast_of", []Sort{SStr}, SInt), st.scalar(a)), t, true
 	case "parses":
 		a, _ := st.elab(env, e.Args[0])
 		return App(SBool, st.declareFun("spec.parses", []Sort{SStr}, SBool), st.scalar(a)), tBool, true
